@@ -13,7 +13,7 @@ from props.common import main, Run, run_child, load_known, ALL_SIDECARS  # noqa:
 
 SIDE = ALL_SIDECARS + ("inject",)
 HELPERS = ["fickle.Pickled.insert", "fickle.Pickled._encode_python_obj", "fickle.Pickled.insert_python_obj", "fickle.Pickled.insert_python", "fickle.Pickled.append_python",
-           "fickle.Pickled.insert_magic_int"]
+           "fickle.Pickled.insert_magic_int", "fickle.Pickled._is_constant_type"]
 
 
 def name_of(f):
